@@ -6,6 +6,7 @@ import SwiftMT.Headers
 import SwiftMT.Classify
 import SwiftMT.Tokeniser
 import SwiftMT.Fields.Registry
+import SwiftMT.Rules
 import Driver.Hex
 /-
 Line-protocol driver over the executable model: one request per line on stdin, one answer per line on
@@ -184,6 +185,14 @@ def handle (args : List String) : String :=
           | .error (.invalid t _) => s!"invalid:{hex t}"
           | .error (.parser e) => s!"err:{perr e}")
     | _, _ => "bad-op"
+  | ["val", ty, i] => match ty.toNat?, unhex i with
+    | some ty, some txt => (match J.parse txt with
+      | some m => (match Rules.validateJson ty m with
+        | some codes => s!"codes {",".intercalate codes}"
+        | none => "#skip")
+      | none => "bad-json")
+    | _, _ => "bad-op"
+  | ["vallist"] => ",".intercalate (Rules.modelled.map (fun p => toString p.1))
   | ["fldlist"] => ",".intercalate (Fields.registry.map (·.1))
   | ["fld", name, i] => match unhex i with
     | some input => (match Fields.run name input with
